@@ -129,6 +129,21 @@ def run_search(case, executor, order=None, faults=False, log=None):
     import random
 
     random.seed(case["case_seed"])
+    if executor in ("serial", "scripted"):
+        # trial functions draw from the global generator (greedy jitter, the 'random' method, the slice
+        # finder): pin its state at the start of every trial, so that a trial's outcome is a function of
+        # its own setting and not of how much randomness earlier (possibly failing) trials consumed.
+        # In these two executors the trial runs immediately after its setting is requested.
+        get_setting = opt._optimizer["get_setting"]
+        counter = {"n": 0}
+
+        def seeded_get_setting(self_):
+            setting = get_setting(self_)
+            counter["n"] += 1
+            random.seed(f"{case['case_seed']}/trial/{counter['n']}")
+            return setting
+
+        opt._optimizer = dict(opt._optimizer, get_setting=seeded_get_setting)
     try:
         res = opt.search(net.inputs, net.output, net.size_dict)
     except Exception as e:
